@@ -999,14 +999,25 @@ fn run_inner(case: &Case) -> String {
         }
     }
     let probe: Arc<Mutex<Option<(Scheduler, Address<SM>)>>> = Arc::new(Mutex::new(None));
-    let mut init = SimInit::with_num_threads(case.threads).set_clock(ScriptClock {
+    // The builder calls may come in any order: the tolerance is set before the clock on benches
+    // chosen by a parity of the case (the model has no notion of builder order).
+    let tol_first = matches!(case.tol, Some(t) if (t as usize + n + case.clock.len()) % 2 == 1);
+    let mut init = SimInit::with_num_threads(case.threads);
+    if tol_first {
+        if let Some(t) = case.tol {
+            init = init.set_clock_tolerance(Duration::from_nanos(t as u64));
+        }
+    }
+    init = init.set_clock(ScriptClock {
         answers: case.clock.clone(),
         pos: 0,
         log: log.clone(),
         probe: probe.clone(),
     });
-    if let Some(t) = case.tol {
-        init = init.set_clock_tolerance(Duration::from_nanos(t as u64));
+    if !tol_first {
+        if let Some(t) = case.tol {
+            init = init.set_clock_tolerance(Duration::from_nanos(t as u64));
+        }
     }
     for id in 0..n {
         if case.models[id].parent.is_none() && case.models[id].place == 0 {
